@@ -1131,3 +1131,56 @@ Proof.
      | first [exact E64|exact E32|exact E32H]
      | intros d; reflexivity ]).
 Qed.
+
+(* ------------------------------------------------------------------------------------------------ "accepted by the inverse" about THE RETURNED
+   OBJECT of a Base decoder (no premise on the returned object: it has no empty region and is not longer than the input) *)
+
+Lemma decoded_accepted (dec enc : data -> res data) (decflat : list Z -> res (list Z)) (encspec : list Z -> list Z) (fd fe : Z) :
+  (forall d, wf_data d -> flat_res (dec d) = decflat (flat d)) ->
+  (forall d t, dec d = Ok t -> nonempty_regions t) ->
+  (forall l V, decflat l = Ok V -> Zlength V <= Zlength l) ->
+  (forall t, nonempty_regions t -> dsize t < 2 ^ 60 -> enc t = Ok (data_create (encspec (flat t)))) ->
+  (forall d, transform d fd F_NONE = if dsize d =? 0 then Ok d else (do t <- dec d; Ok t)) ->
+  (forall d, transform d F_NONE fe = if dsize d =? 0 then Ok d else enc d) ->
+  forall d t, wf_data d -> transform d fd F_NONE = Ok t -> exists e, transform t F_NONE fe = Ok e.
+Proof.
+  intros Hdec Hne Hlen Henc Htd Hte d t Hwf Ht. rewrite Hte. destruct (dsize t =? 0); [eauto|].
+  rewrite Htd in Ht. destruct (Z.eqb_spec (dsize d) 0) as [E|E].
+  - inversion Ht; subst t. destruct Hwf as (H1 & _ & H3). rewrite (Henc d H1 H3). eauto.
+  - assert (HF := Hdec d Hwf). destruct Hwf as (_ & _ & Hsz).
+    destruct (dec d) as [t0| |] eqn:Ed; cbn [bind flat_res] in *; try discriminate. inversion Ht; subst t0.
+    assert (Hl := Hlen _ _ (eq_sym HF)).
+    rewrite (Henc t (Hne d t Ed) ltac:(unfold dsize in *; lia)). eauto.
+Qed.
+
+Theorem base_decode_returned_accepted : forall f, (f = 5 \/ f = 6 \/ f = 7) ->
+  forall d t, wf_data d -> transform d f F_NONE = Ok t -> exists e, transform t F_NONE f = Ok e.
+Proof.
+  destruct tables32_ok as (A1 & A2 & A3 & A4). destruct tables32hex_ok as (B1 & B2 & B3 & B4).
+  intros f [ -> | [ -> | -> ] ].
+  - eapply (decoded_accepted (from_base32_with_table base32_decode_table base32_decode_table_size)
+                             (to_base32_with_table base32_encode_table)
+                             (dec32_flat base32_decode_table base32_decode_table_size) (b32_spec base32_encode_table)).
+    + intros d (_ & Hb & Hs); eapply (from_base32_flat base32_encode_table); eauto using wf_regions_small.
+    + intros d t; first [eapply (from_base32_nonempty base32_encode_table base32_decode_table) | eapply from_base32_nonempty]; eauto.
+    + intros l V; first [eapply (dec32_flat_len base32_encode_table base32_decode_table) | eapply dec32_flat_len]; eauto.
+    + intros; eapply (to_base32_flat base32_encode_table base32_decode_table); eauto.
+    + exact transform_b32_none.
+    + exact transform_none_b32.
+  - eapply (decoded_accepted (from_base32_with_table base32hex_decode_table base32hex_decode_table_size)
+                             (to_base32_with_table base32hex_encode_table)
+                             (dec32_flat base32hex_decode_table base32hex_decode_table_size) (b32_spec base32hex_encode_table)).
+    + intros d (_ & Hb & Hs); eapply (from_base32_flat base32hex_encode_table); eauto using wf_regions_small.
+    + intros d t; first [eapply (from_base32_nonempty base32hex_encode_table base32hex_decode_table) | eapply from_base32_nonempty]; eauto.
+    + intros l V; first [eapply (dec32_flat_len base32hex_encode_table base32hex_decode_table) | eapply dec32_flat_len]; eauto.
+    + intros; eapply (to_base32_flat base32hex_encode_table base32hex_decode_table); eauto.
+    + exact transform_b32hex_none.
+    + exact transform_none_b32hex.
+  - eapply (decoded_accepted from_base64 to_base64 dec64_flat b64_spec).
+    + intros d (_ & Hb & Hs); apply from_base64_flat; [exact Hb|apply wf_regions_small, Hs].
+    + exact from_base64_nonempty.
+    + exact dec64_flat_len.
+    + intros; apply to_base64_flat; [assumption|lia].
+    + exact transform_b64_none.
+    + exact transform_none_b64.
+Qed.
